@@ -1,0 +1,11 @@
+//go:build verif
+
+package server
+
+import "sync/atomic"
+
+// verifSkipConnect is set by the verification harness (/verif) so that request validation does not
+// dial the real downstream. It is only compiled with the build tag "verif".
+var verifSkipConnect atomic.Bool
+
+func verifSkipConnectProbe() bool { return verifSkipConnect.Load() }
